@@ -63,6 +63,11 @@ fn colon_rules(tok: &str, q: &Q) -> Exp {
     }
     let lead = tok.starts_with(':') && n > 1;
     let trail = tok.ends_with(':') && n > 1;
+    // a lone dot is not a name (`.` by itself is not a symbol either): the
+    // documentation does not say what `.:` / `:.` / `:.:` denote
+    if (lead && &tok[1..] == ".") || (trail && &tok[..n - 1] == ".") || tok == ":.:" {
+        return Exp::Unspecified;
+    }
     let pre = q.kw & KW_PREFIX != 0;
     let post = q.kw & KW_POSTFIX != 0;
     if lead && trail {
@@ -819,7 +824,7 @@ fn case_options_api(rep: &mut Report, rng: &mut crate::rng::Rng, qi: usize) {
 pub fn sets(ctx: &Ctx) -> Vec<CaseSet> {
     let nt = TOKENS.len();
     let nc = CONTEXTS.len();
-    let n_random = ctx.size(800, 4_000);
+    let n_random = ctx.size(800, 40_000);
     vec![
         CaseSet::new("options-builder-and-query-api-x-all-option-sets", N_Q as u64, Box::new(move |rep, rng, case| case_options_api(rep, rng, case as usize))),
         CaseSet::new(
